@@ -16,10 +16,24 @@ import (
 )
 
 const (
-	repoDir    = "/repo"
 	verifDir   = "/verif"
 	harnessDir = "/verif/harness"
 )
+
+// repoDir is /repo; VERIF_REPO redirects a run to a scratch worktree and
+// VERIF_OUT its evidence / replay files (used only to evaluate seeded changes
+// in parallel without touching /repo or /verif/evidence).
+var (
+	repoDir = envOr("VERIF_REPO", "/repo")
+	outDir  = envOr("VERIF_OUT", verifDir)
+)
+
+func envOr(k, d string) string {
+	if v := os.Getenv(k); v != "" {
+		return v
+	}
+	return d
+}
 
 func main() {
 	if len(os.Args) < 2 {
@@ -279,7 +293,7 @@ func cmdCheck(args []string) int {
 		fmt.Println("unknown property", id)
 		return 2
 	}
-	evPath := filepath.Join(verifDir, "evidence", id+".json")
+	evPath := filepath.Join(outDir, "evidence", id+".json")
 	os.MkdirAll(filepath.Dir(evPath), 0o755)
 	os.Remove(evPath)
 
@@ -744,7 +758,7 @@ func replayViolation(runner *sym.NativeRunner, prog *sym.Program, v *sym.Violati
 }
 
 func writeReplay(id string, v *sym.Violation) string {
-	dir := filepath.Join(verifDir, "replays", id)
+	dir := filepath.Join(outDir, "replays", id)
 	os.MkdirAll(dir, 0o755)
 	name := fmt.Sprintf("%s-%d.json", sanitize(v.Job+"-"+v.Label), time.Now().UnixNano()%1000000)
 	path := filepath.Join(dir, name)
